@@ -5,7 +5,7 @@ From Coq Require Import List Arith Lia Bool.
 Import ListNotations.
 
 Inductive tstate := TNone | TArmed | TFired.
-Inductive outcome := Reply | NoResponders | Timeout.
+Inductive outcome := Reply | NoResponders | Timeout | SendError.
 
 Record req := {
   sent : bool;
@@ -19,7 +19,7 @@ Record req := {
 Definition init : req :=
   {| sent := false; pending := false; in_tq := false; tq_fired := false; has_timer := false; timer := TNone; done := [] |}.
 
-Inductive act := Send | MsgReply | Msg503 | MsgPre | TqExpire | TqRun | TimerExpire | TimerRun.
+Inductive act := Send | SendFail | MsgReply | Msg503 | MsgPre | TqExpire | TqRun | TimerExpire | TimerRun.
 
 Definition complete (r : req) (o : outcome) : req :=   (* delete from mqReqs, tq.Remove, rc.t.Stop, callback *)
   {| sent := sent r; pending := false; in_tq := false; tq_fired := tq_fired r; has_timer := has_timer r;
@@ -31,6 +31,8 @@ Definition step (r : req) (a : act) : req :=
   match a with
   | Send => if sent r then r else
       {| sent := true; pending := true; in_tq := true; tq_fired := false; has_timer := false; timer := TNone; done := done r |}
+  | SendFail => if sent r then r else      (* subscribing or publishing failed: the callback gets the error, nothing is registered *)
+      {| sent := true; pending := false; in_tq := false; tq_fired := false; has_timer := false; timer := TNone; done := done r ++ [SendError] |}
   | MsgReply => if pending r then complete r Reply else r
   | Msg503 => if pending r then complete r NoResponders else r
   | MsgPre =>
@@ -110,5 +112,7 @@ Print Assumptions completion_exactly_once.
 Example race1 : done (run [Send; TqExpire; MsgReply; TqRun]) = [Reply]. Proof. reflexivity. Qed.
 (* pre-response re-arms, silence then ends in exactly one timeout *)
 Example pre_then_silence : done (run [Send; MsgPre; TimerExpire; MsgPre; TimerRun]) = [Timeout]. Proof. reflexivity. Qed.
+(* a request that could not be published completes once, with the error; no timeout follows *)
+Example pubfail : done (run [SendFail; TqExpire; TqRun; MsgReply]) = [SendError]. Proof. reflexivity. Qed.
 (* a late duplicate reply is ignored *)
 Example dup : done (run [Send; MsgReply; MsgReply; TqExpire; TqRun]) = [Reply]. Proof. reflexivity. Qed.
